@@ -64,19 +64,29 @@ def worker_thread(queue, process_item):
             finally:
                 queue.task_done()
 
-    return thread(process_items)
+    return threading.Thread(target=process_items)
 
 
 @contextmanager
-def worker_pool(queue, process_item, worker_count):
+def worker_pool(queue, process_item, worker_count, shutdown):
     workers = []
     try:
-        for _ in range(worker_count):
-            workers.append(worker_thread(queue, process_item))
-        yield
+        try:
+            for _ in range(worker_count):
+                # Register the worker before starting it so that an interrupt during start-up
+                # cannot leave a running worker that is neither released nor joined.
+                worker = worker_thread(queue, process_item)
+                workers.append(worker)
+                worker.start()
+            yield
+        finally:
+            shutdown()
     finally:
         for worker in workers:
-            worker.join()
+            try:
+                worker.join()
+            except RuntimeError:
+                pass  # never started
 
 
 class PreparedNodes(NamedTuple):
@@ -154,13 +164,14 @@ def run_function_on_graph(
                         if remaining_pred_count_mapping[successor] == 0:
                             queue.put(successor)
 
-    with worker_pool(queue, process_node, worker_count):
-        try:
-            queue.join()
-        finally:
-            stop = True
-            for _ in range(worker_count):
-                queue.put(DONE)
+    def shutdown():
+        nonlocal stop
+        stop = True
+        for _ in range(worker_count):
+            queue.put(DONE)
+
+    with worker_pool(queue, process_node, worker_count, shutdown):
+        queue.join()
 
     if first_node_error:
         raise first_node_error
